@@ -28,6 +28,8 @@ pub enum Piece {
     Garbage,
     /// PUT declaring a body above the payload limit
     Oversize,
+    /// a complete GET and the header block of an Expect PUT in one write (the body is the Rest)
+    GetExpect,
 }
 
 #[derive(Clone, Copy, Debug, PartialEq, Eq)]
@@ -85,6 +87,7 @@ fn piece_name(p: Piece) -> &'static str {
         Piece::Bad => "bad",
         Piece::Garbage => "garbage",
         Piece::Oversize => "oversize",
+        Piece::GetExpect => "getexpect",
     }
 }
 fn parse_piece(s: &str) -> Option<Piece> {
@@ -99,6 +102,7 @@ fn parse_piece(s: &str) -> Option<Piece> {
         "bad" => Piece::Bad,
         "garbage" => Piece::Garbage,
         "oversize" => Piece::Oversize,
+        "getexpect" => Piece::GetExpect,
         _ => return None,
     })
 }
@@ -255,6 +259,20 @@ pub fn apply(sim: &mut Sim, a: &Act) -> Applied {
                     sim.gens[gi].pending_rest = Some(bytes[n..].to_vec());
                     sim.gens[gi].completed.push(format!("?{}", tag));
                 }
+                Piece::GetExpect => {
+                    let (t1, mut b1) = sim.next_request(gi, ReqKind::Get);
+                    let (t2, b2) = sim.next_request(gi, ReqKind::PutExpect(20));
+                    let hdr_end = b2.windows(4).position(|w| w == b"\r\n\r\n").map(|i| i + 4).unwrap_or(b2.len());
+                    b1.extend_from_slice(&b2[..hdr_end]);
+                    let n = sim.send_bytes(gi, &b1);
+                    if n == b1.len() {
+                        sim.gens[gi].completed.push(t1);
+                        sim.gens[gi].pending_rest = Some(b2[hdr_end..].to_vec());
+                        sim.gens[gi].completed.push(format!("?{}", t2));
+                    } else {
+                        sim.gens[gi].send_failed = true;
+                    }
+                }
                 Piece::Bad => {
                     sim.send_bytes(gi, b"BADMETHOD /x HTTP/1.1\r\n\r\n");
                 }
@@ -406,6 +424,9 @@ pub fn run_history<P: HistoryProp>(ctx: &mut Ctx, prop: &mut P, acts: &[Act], fi
 /// `depth`; every node (= every prefix) is executed with the inline and the end oracle.
 /// Sharding: the subtrees below depth `split` are dealt round-robin to the shards.
 pub fn dfs<P: HistoryProp>(ctx: &mut Ctx, prop: &mut P, depth: usize, split: usize, sig_prefix: &str, max_violations: usize) {
+    let depth = ctx.dfs_depth.unwrap_or(depth);
+    // deal the subtrees out at a level where there are enough of them to keep every shard busy
+    let split = split.max(5).min(depth.saturating_sub(1));
     let mut prefix: Vec<Act> = Vec::new();
     let mut counter = 0u64;
     let mut found = 0usize;
